@@ -290,6 +290,7 @@ func ruleC07(w *World, r *Report) {
 		"R07.6 reported = programmed: the value returned by Allocate is stored in the PDR that is both kept in the session and reported (Created PDR built from pdr.tunnelTEID); every handler that creates PDRs serves the CHOOSE flag."
 	r.Explanation += " R07.7 (cont.) FreeID in releaseAllocatedTEIDs only under pdr.UPAllocateFteid; R07.8 the bytes written to match fields and action parameters are the converter's output, at most stripped of leading zeros."
 	r.Explanation += " R07.4 (cont.) no object other than upf holds a TEID generator; R07.10 = C03 R03.12; R07.11 UP4 writes the sessions entry of every PDR."
+	r.Explanation += " R07.12 = C03 R03.16; R07.13 from the true edge of UPAllocateFteid every path to CreatePDR runs Allocate."
 	r.NotDecided = "uniqueness over the whole history as such (it follows from R07.1–R07.4 by induction on the used-set, not mechanised); quality of the random source"
 
 	gen := map[string]bool{"offset": true, "usedMap": true}
